@@ -19,6 +19,7 @@ RULE = (
     '; pass 6: refused get_fantasy_model calls leave the source untouched; fantasies of two-input exact GPs; rank>0 multitask noise; iterative cells tighten eval_cg_tolerance only'
     "; pass 7: m == stored-size cells, requires_grad / training flags in the source snapshot; the SOURCE trains on after its children exist (children that predicted before and children that had not) - each child stays the exact GP of its own hyper-parameters"
     "; pass 8: KISS-GP (WISKI) fantasy chains under fast_pred_var"
+    "; pass 9: float32 fantasy inputs for float64 models; gradient of the fantasy mean w.r.t. the fantasy targets; WISKI sibling fantasies"
 )
 REQUIRED = ["fantasy_mean", "fantasy_covar", "fantasy_mean_cache", "fantasy_root_decomposition", "fantasy_root_inv_decomposition", "source_untouched", "monitor:get_fantasy_strategy"]
 ASSUMPTIONS = ["noise of the concatenated data is assembled from public parameters (sigma^2; stored fixed noise followed by the call-time fantasy noise [+ learned sigma^2])"]
